@@ -60,4 +60,14 @@ func VerifH_C11_build_expressions() {
 		return
 	}
 	verifrt.Reach("value")
+	switch n.Tag() {
+	case YamlExprTag, OrDisabledTag, SoftOptionalTag, WaitOptionalTag:
+		verifrt.Assert(n.Type() == yaml.TypeIDString, "an expression tag is accepted on string nodes only")
+	case YamlOneOfTag:
+		verifrt.Assert(n.Type() == yaml.TypeIDMap, "a one-of tag is accepted on map nodes only")
+	default:
+		if n.Type() == yaml.TypeIDString {
+			verifrt.Assert(v == any(n.Value()), "an untagged scalar is its own value")
+		}
+	}
 }
